@@ -11,6 +11,8 @@ pub mod shard;
 #[cfg(any(debug_assertions, feature = "footprint_enforce_release"))]
 #[cfg(not(feature = "unsafe_graph"))]
 pub(crate) use exec::ExecItemKind;
+#[cfg(feature = "echo_verif")]
+pub(crate) use exec::echo_verif_execute_item_enforced;
 pub use exec::{
     build_work_units, execute_parallel, execute_parallel_sharded,
     execute_parallel_sharded_with_adaptive_routing, execute_parallel_sharded_with_policy,
